@@ -79,7 +79,7 @@ def to_signed(v, n):
 
 
 class IV:
-    __slots__ = ("bits", "c", "e", "_u", "_s", "pref", "lazy", "tz", "ubits", "srng", "urng", "fac")
+    __slots__ = ("bits", "c", "e", "_u", "_s", "pref", "lazy", "tz", "ubits", "srng", "urng", "fac", "cat")
 
     def __init__(self, bits, c=None, e=None, u=None, s=None, pref="u", lazy=None):
         self.lazy = lazy
@@ -88,6 +88,7 @@ class IV:
         self.srng = None     # known interval of the signed reading (INT mode, python ints)
         self.urng = None     # known interval of the unsigned reading
         self.fac = None      # (base term, k): signed reading == base * 2^k exactly (INT mode)
+        self.cat = None      # [(lsb offset, IV), ...]: value is the concatenation of these pieces (INT mode)
         self.bits = bits
         self.c = None if c is None else c & mask(bits)
         self.e = e
@@ -596,6 +597,13 @@ class IntDom:
                     if y.c == 0:
                         return IV(n, c=0)
                     if (y.c + 1) & y.c == 0:  # low mask 2^k-1
+                        kk = (y.c + 1).bit_length() - 1
+                        lo_ = self.cat_low(x, kk)
+                        if lo_ is not None:
+                            return self.zext(lo_, n) if lo_.bits < n else lo_
+                        ur = self._urng(x)
+                        if ur is not None and ur[1] <= y.c:
+                            return x
                         return self.mk_u(n, self.U(x) % (y.c + 1))
                     inv = (~y.c) & mask(n)
                     if (inv + 1) & inv == 0:  # clears the k low bits
@@ -614,6 +622,8 @@ class IntDom:
                 if x.tz >= y.ubits and x.c is None or (x.c is not None and y.ubits <= (((x.c & -x.c).bit_length() - 1) if x.c else n)):
                     r = self.mk_u(n, self.U(x) + self.U(y))  # disjoint bit ranges: or == add
                     r.ubits = n
+                    if x.cat is not None and y.cat is not None:
+                        r.cat = sorted(list(x.cat) + list(y.cat), key=lambda t: t[0])
                     return r
             return self._or_like(a, b, op)
         if op == "xor":
@@ -625,6 +635,44 @@ class IntDom:
                 return self.mk_u(n, mask(n) - self.U(b))
             return self._or_like(a, b, op)
         raise IntUnsupported(op)
+
+    def cat_low(self, a, k):
+        """low k bits of a concatenated value if k falls on a piece boundary"""
+        if a.cat is None:
+            return None
+        pieces = [(o, iv) for (o, iv) in a.cat if o < k]
+        if not pieces or any(o + iv.bits > k for (o, iv) in pieces):
+            return None
+        return self.cat_make(pieces, k)
+
+    def cat_high(self, a, k):
+        """a >> k (logical) if k falls on a piece boundary"""
+        if a.cat is None:
+            return None
+        if any(o < k < o + iv.bits for (o, iv) in a.cat):
+            return None
+        pieces = [(o - k, iv) for (o, iv) in a.cat if o >= k]
+        return self.cat_make(pieces, a.bits)
+
+    def cat_make(self, pieces, bits):
+        if not pieces:
+            return IV(bits, c=0)
+        if len(pieces) == 1 and pieces[0][0] == 0:
+            iv = pieces[0][1]
+            if iv.bits == bits:
+                return iv
+            return self.zext(iv, bits) if iv.bits < bits else None
+        e = None
+        hi = 0
+        for (o, iv) in pieces:
+            t = self.U(iv) * (1 << o) if o else self.U(iv)
+            e = t if e is None else e + t
+            hi = max(hi, o + iv.bits)
+        r = self.mk_u(bits, e)
+        r.cat = list(pieces)
+        r.ubits = min(bits, hi)
+        r.urng = (0, (1 << r.ubits) - 1)
+        return r
 
     def _and_sign(self, a, b):
         return IV(a.bits, lazy=("and", a, b), pref="s")
@@ -657,6 +705,8 @@ class IntDom:
             if a.ubits + k <= n:
                 r = self.mk_u(n, self.U(a) * (1 << k))  # cannot wrap
                 r.ubits = a.ubits + k
+                if a.cat is not None:
+                    r.cat = [(o + k, iv) for (o, iv) in a.cat]
             elif a.pref == "s":
                 r = self.mk_s(n, self.wrap_s(self.S(a) * (1 << k), n))
             else:
@@ -664,6 +714,9 @@ class IntDom:
             r.tz = a.tz + k
             return r
         if op == "lshr":
+            hi_ = self.cat_high(a, k)
+            if hi_ is not None:
+                return hi_
             r = self.mk_u(n, self.U(a) / (1 << k))
             r.ubits = max(0, min(a.ubits, n) - k)
             return r
@@ -714,6 +767,7 @@ class IntDom:
         r.ubits = min(a.bits, a.ubits)
         r.urng = self._urng(a) or (0, (1 << a.bits) - 1)
         r.srng = r.urng
+        r.cat = a.cat if a.cat is not None else [(0, a)]
         return r
 
     def sext(self, a, bits):
@@ -726,6 +780,9 @@ class IntDom:
     def trunc(self, a, bits):
         if a.c is not None:
             return IV(bits, c=a.c)
+        lo_ = self.cat_low(a, bits)
+        if lo_ is not None and lo_.bits == bits:
+            return lo_
         sr = self._srng(a)
         if sr is not None and -(1 << (bits - 1)) <= sr[0] and sr[1] < (1 << (bits - 1)):
             r = self.mk_s(bits, self.S(a))
